@@ -110,10 +110,10 @@ static std::string runCase(const std::string& cmd, const Args& args) {
   catch (const std::exception&) { return "err"; }
 }
 
-static unsigned g_watchdog = 20;
+static unsigned g_watchdog = 30;
 
 // run one case in a forked child; classify how it ended
-static std::string runIsolated(const std::string& cmd, const Args& args) {
+static std::string runIsolated(const std::string& cmd, const Args& args, unsigned watchdog) {
   int fds[2]; if (pipe(fds)) return "harness-error";
   int efds[2]; if (pipe(efds)) return "harness-error";
   fflush(stdout);
@@ -122,7 +122,7 @@ static std::string runIsolated(const std::string& cmd, const Args& args) {
   if (pid == 0) {
     close(fds[0]); close(efds[0]);
     dup2(efds[1], 2);
-    alarm(g_watchdog);
+    alarm(watchdog);
     std::string r = runCase(cmd, args);
     r.push_back('\n');
     ssize_t w = write(fds[1], r.data(), r.size()); (void)w;
@@ -158,7 +158,14 @@ int main(int argc, char** argv) {
     if (toks.empty()) { std::cout << "bad-op\n"; continue; }
     std::string cmd = toks[0]; toks.erase(toks.begin());
     std::string r;
-    if (!cmd.empty() && cmd[0] == '!') r = runIsolated(cmd.substr(1), toks);
+    if (!cmd.empty() && cmd[0] == '!') {
+      // "!cmd" : forked with the default watchdog;  "!<secs>!cmd" : forked with a watchdog of its own (cases that
+      // legitimately write gigabytes)
+      std::string rest = cmd.substr(1); unsigned wd = g_watchdog;
+      std::size_t bang = rest.find('!');
+      if (bang != std::string::npos && bang > 0 && rest.find_first_not_of("0123456789") == bang) { wd = static_cast<unsigned>(atoi(rest.substr(0, bang).c_str())); rest = rest.substr(bang + 1); }
+      r = runIsolated(rest, toks, wd);
+    }
     else r = runCase(cmd, toks);
     std::cout << r << "\n";
   }
